@@ -88,7 +88,12 @@ func Bytes(n int) []byte {
 }
 
 // Choice returns an arbitrary integer in [0,n); the executor forks on it.
-func Choice(n int) int { return int(next("choice")) }
+func Choice(n int) int {
+	if n <= 1 {
+		return 0 // the executor records nothing for a choice among one
+	}
+	return int(next("choice"))
+}
 
 // Param returns a concrete bound supplied by the check driver for this shape.
 func Param(name string) int {
@@ -179,3 +184,8 @@ func Run(f func()) (verdict string) {
 	f()
 	return "ok"
 }
+
+// HangBound: under the executor, a loop of the code under test that makes more than n iterations
+// in one activation is a violation (kind=hang) from here on. Natively the test timeout plays
+// that role.
+func HangBound(n int) {}
